@@ -87,7 +87,12 @@ func (p *Peer) onDatagram(src string, data []byte) {
 		}
 	case *message.SessionReportRequest:
 		if p.AnswerReports {
-			p.SendMsg(message.NewSessionReportResponse(0, 0, x.SEID(), x.SequenceNumber, 0, ie.NewCause(p.ReportCause)))
+			// the response is addressed with the UP function's SEID of the session
+			up := uint64(0)
+			if sess, ok := p.Sessions[x.SEID()]; ok {
+				up = sess.UPSEID
+			}
+			p.SendMsg(message.NewSessionReportResponse(0, 0, up, x.SequenceNumber, 0, ie.NewCause(p.ReportCause)))
 		}
 	}
 }
